@@ -8,3 +8,4 @@ import PGV.Props.C16
 #print axioms PGV.Props.C16.C16_fn_global_second
 #print axioms PGV.Props.C16.C16_fn_builtin_last
 #print axioms PGV.Props.C16.C16_unknown_continues
+#print axioms PGV.Props.C16.C16_rule_table
